@@ -147,6 +147,12 @@ def limit_programs():
                        (exits + pad_a) if early else (pad_a + exits), pad_b)
             tails.append(("handler-sum:%d:%d:%s" % (a, b, "early" if early else "late"), src,
                           ["fin", "ret", "caught t", "fin", "end", "fin", "end", "1", "done"]))
+    # blocks nested deeper than any 8-bit counter: a local of the innermost block is gone when the blocks have closed, inside and
+    # outside a loop body (the scope depth of a local is not bounded by the number of locals)
+    for k in (254, 255, 256, 257, 300, 513):
+        src = ("var x = \"global x\";\nfn f() {\n" + "{\n" * k + "var x = \"inner x\"; var y = x;\n" + "}\n" * k + "return x;\n}\nprint(f());\nfn g() {\n  var seen = [];\n  for i in 0..3 {\n"
+               + "{\n" * k + "var leak = \"leaked \" + String.from(i); seen.push(leak);\n" + "}\n" * k + "  }\n  var after = \"after\";\n  return after;\n}\nprint(g());\nprint(\"done\");\n")
+        tails.append(("nesting:%d" % k, src, ["global x", "after", "done"]))
     for tag, src, exp in tails:
         out.append(("limit:tail:" + tag, src, {}))
         TAIL_EXPECT["limit:tail:" + tag] = exp
